@@ -80,7 +80,11 @@ def gen(args) -> list:
             nod = rnod()
             cc = rnd.random()
             if form == "var":
-                nod = nod if cc < 0.4 else (nod // (60 * 10**9)) * 60 * 10**9 if cc < 0.7 else (nod // (3600 * 10**9)) * 3600 * 10**9
+                # which form is chosen depends on which fields are zero: minute- and hour-aligned times carrying nothing, a
+                # sub-microsecond, a sub-millisecond or a larger fraction, or whole seconds
+                unit0 = rnd.choice([60 * 10**9, 3600 * 10**9])
+                extra = rnd.choice([0, 0, 1, 999, 1000, 999_999, 10**6, 5 * 10**8, 10**9, 59 * 10**9, rnd.randrange(10**9)])
+                nod = nod if cc < 0.3 else min((nod // unit0) * unit0 + extra, NPD - 1)
             # what the form keeps of the value (the rest is not written; only values it keeps entirely are read back)
             unit = {"general": 10**9, "hm": 60 * 10**9, "h": 3600 * 10**9, "var": 1}[form]
             kept = (nod // unit) * unit
